@@ -653,6 +653,8 @@ func calculateTextEditRange(content string, pos protocol.Position, ctxType Compl
 		}
 	case ContextPayee:
 		startByte = payeeQueryStart(beforeCursor)
+	case ContextTagName:
+		startByte = tagNameQueryStart(beforeCursor)
 	default:
 		return nil
 	}
@@ -693,6 +695,17 @@ func payeeQueryStart(beforeCursor string) int {
 	return len(beforeCursor) - len(rest)
 }
 
+// tagNameQueryStart returns the offset in beforeCursor (a line up to a cursor inside its
+// comment) at which the tag name being typed starts: after the semicolon or the last comma,
+// and the blanks that follow it.
+func tagNameQueryStart(beforeCursor string) int {
+	start := strings.Index(beforeCursor, ";") + 1
+	if comma := strings.LastIndex(beforeCursor, ","); comma >= start {
+		start = comma + 1
+	}
+	return len(beforeCursor) - len(strings.TrimLeft(beforeCursor[start:], " \t"))
+}
+
 func findCommodityStart(line string, byteCol int) int {
 	parts := parsePosting(line)
 	if parts.separatorIdx == -1 {
@@ -728,6 +741,9 @@ func extractQueryText(content string, pos protocol.Position, ctxType CompletionC
 
 	case ContextPayee:
 		return beforeCursor[payeeQueryStart(beforeCursor):]
+
+	case ContextTagName:
+		return beforeCursor[tagNameQueryStart(beforeCursor):]
 
 	case ContextCommodity:
 		if after, found := strings.CutPrefix(beforeCursor, directiveCommodity); found {
